@@ -76,5 +76,5 @@ end CaddyModel.C18
 
 namespace CaddyModel.C18
 /-- counter-example lines replayed on the implementation on every run (see Witness.lean) -/
-def witnessLines : List String := []
+def witnessLines : List String := ["C18 cost known 20000 4"]   -- Props.cost_linear_all_modes_full_fails, replayed by timing
 end CaddyModel.C18
